@@ -24,6 +24,9 @@ import (
 
 type pqMismatch struct{ kind, what string }
 
+// pqReplayStride: replay every n-th maximal path only (set by the checks that share the replay)
+var pqReplayStride = 1
+
 func replayPQPath(name, path string) (*core.Trace, *pqMismatch) {
 	steps := strings.Split(strings.TrimSuffix(path, ","), ",")
 	e := qenv.New(name, txfile.Options{PageSize: 1024}, 64*1024)
@@ -159,6 +162,15 @@ func replayPQOpts(r *core.Run, o core.TLCOpts, judgeEvery int) []*core.Trace {
 	}
 	gen.Cleanup()
 	max := maximalPaths(paths)
+	if pqReplayStride > 1 { // C12 / C17 replay a sample, C05 all of them
+		var sel []string
+		for i, p := range max {
+			if i%pqReplayStride == 0 {
+				sel = append(sel, p)
+			}
+		}
+		max = sel
+	}
 	r.SetExtra("pqreplay_"+cfg, map[string]interface{}{"graph_states": gen.Distinct, "transitions": len(paths), "maximal_paths_replayed": len(max), "judged_by_PQTrace_every": judgeEvery})
 	if len(max) > 0 {
 		r.AddSample(map[string]interface{}{"replayed_pq_path": max[len(max)/2]})
